@@ -90,6 +90,12 @@ func (f *GitFilter) copyToTemp(reader io.Reader, fileSize int64, cb tools.CopyCa
 		// If there is still more data to be read from the file, tack on
 		// the original reader and continue the read from there.
 		from = io.MultiReader(from, reader)
+	} else {
+		// "fileSize" describes the file at the given path, which need
+		// not be what is being streamed to us (it is only used to
+		// report progress): whatever the stream still holds is part
+		// of the content, too.
+		from = io.MultiReader(from, reader)
 	}
 
 	size, err = tools.CopyWithCallback(writer, from, fileSize, cb)
